@@ -16,6 +16,7 @@ import (
 	"math/rand"
 	"os"
 	"sort"
+	"strconv"
 	"strings"
 	"testing"
 
@@ -370,6 +371,15 @@ func (s *verifConfSuite) setupTasks(kind string, S []string) *state.TaskSet {
 
 func verifConfPick(r *rand.Rand, l []string) string { return l[r.Intn(len(l))] }
 
+func verifConfEnvInt(name string, def int) int {
+	if v := os.Getenv(name); v != "" {
+		if n, err := strconv.Atoi(v); err == nil {
+			return n
+		}
+	}
+	return def
+}
+
 func (s *verifConfSuite) snapsWith(pred func(string) bool) []string {
 	var out []string
 	for _, n := range verifConfSnaps {
@@ -694,10 +704,10 @@ func (s *verifConfSuite) runPairs(c *C, newHistory func(status map[string]string
 
 func (s *verifConfSuite) TestVerifConflictsRun(c *C) {
 	out := os.Getenv("VERIF_OUT")
-	n := verifHoldEnvInt("VERIF_N", 20)
-	length := verifHoldEnvInt("VERIF_LEN", 8)
-	seed := verifHoldEnvInt("VERIF_SEED", 1)
-	perFixture := verifHoldEnvInt("VERIF_PER_FIXTURE", 25)
+	n := verifConfEnvInt("VERIF_N", 20)
+	length := verifConfEnvInt("VERIF_LEN", 8)
+	seed := verifConfEnvInt("VERIF_SEED", 1)
+	perFixture := verifConfEnvInt("VERIF_PER_FIXTURE", 25)
 	f, err := os.Create(out)
 	c.Assert(err, IsNil)
 	defer f.Close()
